@@ -3,11 +3,11 @@ CONSTANTS
   Caps = {1}
   Classes = {}
   MaxSend = 0
-  Wall = {0, 1}
+  Wall = {0, 1, 2}
   MaxPublish = 4
-  Handles = {"p1", "p2", "p3"}
+  Handles = {"p1", "p2"}
   GCaps = {1, 2}
-  SplitCommit = FALSE
+  SplitCommit = TRUE
   PendingWithoutWake = FALSE
   SkipBudget = 0
   BudgetSelfWake = FALSE
@@ -17,10 +17,5 @@ CONSTANTS
   KeepHist = FALSE
   AtomicPolls = FALSE
 INVARIANTS
-  C16_TimestampsStrictlyIncrease
   C16_PublishedDistinct
-  C16_PerHandleInOrder
-  C16_ClockIsLastDrawn
-PROPERTIES
-  C16_ClockNeverRegresses
 CHECK_DEADLOCK FALSE
